@@ -192,6 +192,7 @@ type Frame struct {
 	contract *Contract
 	allocCell map[*ssa.Alloc]bool
 	iterOf   ssa.Value
+	cur      *ssa.BasicBlock // block being executed
 }
 
 type deferred struct {
